@@ -43,7 +43,7 @@ def build(cfg, rng):
     bc = {}
     for a, ax in enumerate(grid.axes):
         if periodic[a]:
-            bc[ax] = "periodic"
+            bc[ax] = "anti-periodic" if rng.integers(0, 3) == 0 else "periodic"
             continue
         lo, hi = orders[a]
         if kind != "cartesian" and a == 0 and not hole:
@@ -80,6 +80,28 @@ def run(payload):
                 fails.append({"id": cfg_id(cfg), "config": cfg, "grid": repr(grid), "bc": bc, "residual": dev,
                               "rhs": rhs.data.tolist() if rhs.data.size < 200 else "large"})
                 break
+    # problems that are solvable by construction (rhs = laplace of a known field) although the matrix may be rank deficient
+    # (curvature / extrapolation on one side): whatever comes back must solve the discrete problem
+    from pde import CartesianGrid as _CG, UnitGrid as _UG
+    combos = [{"x-": {"value": -1.0}, "x+": "extrapolate"}, {"x-": {"curvature": 0.5}, "x+": {"value": 2.0}}, {"x-": {"type": "mixed", "value": 0.7, "const": 0.4}, "x+": {"curvature": -1.0}},
+              {"x-": "extrapolate", "x+": {"derivative": 0.3}}]
+    for bcx in combos:
+        for g in (_UG([4]), _CG([(0, 2)], 7), _CG([(0, 1), (0, 2)], [4, 5], periodic=[False, True])):
+            bc = dict(bcx) if g.num_axes == 1 else {**bcx, "y": "periodic"}
+            u = ScalarField(g, rng.uniform(-1, 1, g.shape))
+            rhs = u.laplace(bc)
+            cases += 1
+            try:
+                sol = solve_poisson_equation(rhs, bc)
+            except RuntimeError:
+                errors_ok += 1
+                continue
+            except Exception as e:
+                fails.append({"id": "solvable_by_construction_other_error", "grid": repr(g), "bc": bc, "error": f"{type(e).__name__}: {e}"})
+                continue
+            dev = float(np.max(np.abs(sol.laplace(bc).data - rhs.data)))
+            if not dev <= 1e-4 * (1 + float(np.max(np.abs(rhs.data)))):
+                fails.append({"id": "returned_field_does_not_solve_a_problem_that_is_solvable_by_construction", "grid": repr(g), "bc": bc, "residual": dev})
     # problems without a solution: whatever comes back (if anything) must solve the discrete problem
     from pde import CartesianGrid, solve_laplace_equation
     unsolvable = [("laplace_1d_inconsistent_fluxes", lambda: solve_laplace_equation(CartesianGrid([(0, 1)], 8), {"x-": {"derivative": 1.0}, "x+": {"derivative": 0.5}}),
